@@ -174,12 +174,13 @@ SameFunction(t, res) ==
 
 \* C01: within one forest, equal identity <=> equal function, for the new
 \* result against every other held edge
-\* C01, structure: the recorded node count of a result in a set forest (in its
-\* original variable order) is the canonical size of the function it denotes
+\* C01, structure: the recorded node count of an edge is the canonical size of the
+\* function it denotes (tables and sizes are by *level*, so this holds in every
+\* variable order a forest has been given)
 SizeViol(res) ==
     IF res.f < 0 \/ ~Has(res, "nc") \/ ~Has(res, "fn") \/ ~LiveForest(res.f) THEN {}
     ELSE LET F == fors[res.f] IN
-         IF F.l2v # [k \in 1..Len(F.l2v) |-> k] \/ HasOff(res.fn) THEN {}
+         IF HasOff(res.fn) \/ Len(res.fn) # NPts(F) THEN {}
          ELSE IF F.rel
          THEN (IF F.lab = "MT" /\ res.nc # RelCanonSize(res.fn, FDS(F), F.rule)
                THEN {V("C01", "node-count-not-canonical")} ELSE {})
@@ -400,6 +401,7 @@ ObsCanonViol(E) ==
 
 DoObs(ev) ==
     /\ viol' = viol \cup ObsViol(ev.E) \cup ObsCanonViol(ev.E)
+                     \cup UNION {SizeViol(ev.E[x]) : x \in 1..Len(ev.E)}
     /\ edges' = [s \in DOMAIN edges |->
                     IF \E x \in 1..Len(ev.E) : ev.E[x].s = s
                     THEN Observed(ev.E[CHOOSE x \in 1..Len(ev.E) : ev.E[x].s = s]) ELSE edges[s]]
